@@ -53,17 +53,29 @@ def _like(value, items):
     return type(value)(*items) if hasattr(value, '_fields') else type(value)(items)
  
 
+def _sorted(keys):
+    """
+    sorted(keys), also when the keys are of types that cannot be compared with one another: these are sorted by type first
+    
+    >>> assert _sorted(['b', 1, 'a', None, 0]) == [None, 0, 1, 'a', 'b']
+    """
+    try:
+        return sorted(keys)
+    except TypeError:
+        return sorted(keys, key = lambda key: (type(key).__name__, key))
+
+
 def _item_by_key(value, key, keys, i = None):
     if isinstance(value, dict):
-        if sorted(value.keys()) == keys:
+        if _sorted(value.keys()) == keys:
             return value[key]
         else:
             return type(value)({k : _item_by_key(v, key, keys, i) for k, v in value.items()})
-    elif isinstance(value, pd.Series) and sorted(value.index.values) == keys:
+    elif isinstance(value, pd.Series) and _sorted(value.index.values) == keys:
         return value[key] 
-    elif isinstance(value, pd.DataFrame) and sorted(value.columns) == sorted(keys):
+    elif isinstance(value, pd.DataFrame) and _sorted(value.columns) == _sorted(keys):
         return value[key]
-    elif isinstance(value, pd.DataFrame) and sorted(value.index) == sorted(keys):
+    elif isinstance(value, pd.DataFrame) and _sorted(value.index) == _sorted(keys):
         return value.loc[key]
     elif is_array(value) and len(value.shape):
         if len(value.shape) == 2 and value.shape[1] == len(keys) and i is not None:
@@ -208,7 +220,7 @@ class loops(wrapper):
             arg = kwargs.pop(top)
             args_, kwargs_ = args, kwargs
         if isinstance(arg, pd.Series) and pd.Series in self.types and not is_ts(arg):
-            keys = sorted(arg.index)
+            keys = _sorted(arg.index)
             res = {key : self._wrapped(arg[key], tuple(_item_by_key(a,key,keys) for a in args_), {k : _item_by_key(v,key,keys) for k,v in kwargs_.items()}) for key in arg.index}
             return type(arg)(res)          
         else:
@@ -217,7 +229,7 @@ class loops(wrapper):
     def _wrapped(self, arg, args, kwargs):
         axis = kwargs.pop('axis', 0)
         if isinstance(arg, dict) and type(arg) in self.types:
-            keys = sorted(arg.keys())
+            keys = _sorted(arg.keys())
             res = {key : self._wrapped(arg[key], tuple(_item_by_key(a,key,keys) for a in args), {k : _item_by_key(v,key,keys) for k,v in kwargs.items()}) for key in arg.keys()}
             return type(arg)(res)
         elif isinstance(arg, pd.DataFrame) and pd.DataFrame in self.types:
@@ -227,7 +239,7 @@ class loops(wrapper):
                     res.index = arg.index
                 return add_index_and_columns(res, arg)
             else:
-                keys = sorted(arg.columns)
+                keys = _sorted(arg.columns)
                 res = [self._wrapped(arg[key], tuple(_item_by_key(a,key,keys,i) for a in args), {k : _item_by_key(v,key,keys,i) for k,v in kwargs.items()}) for i, key in enumerate(arg.columns)]
                 rtn = axis0_to_dataframe(res, arg)
                 return rtn
